@@ -208,7 +208,9 @@ def pinnedExprRules : List (String × String) := [
 
 def pinnedLiquidDefault : String := "(?P<LIQUID_EXPR>[ \\t]*(?P<name>#|\\w+)[ \\t]*(?P<expr>.*?)[ \\t\\r]*?(\\n+|$))|(?P<SKIP>[\\r\\n]+)|(?P<illegal>.)"
 
-def pinnedLiquidMarker : String := "(?P<LIQUID_EXPR>[ \\t]*(?P<name>(\\w+|MARK))[ \\t]*(?P<expr>.*?)[ \\t\\r]*?(\\n+|$))|(?P<SKIP>[\\r\\n]+)|(?P<illegal>.)"
+def pinnedLiquidMarker : String := "(?P<LIQUID_EXPR>[ \\t]*(?P<name>(MARK(?!\\w)|\\w+))[ \\t]*(?P<expr>.*?)[ \\t\\r]*?(\\n+|$))|(?P<SKIP>[\\r\\n]+)|(?P<illegal>.)"
+
+def pinnedLiquidMarkerPunct : String := "(?P<LIQUID_EXPR>[ \\t]*(?P<name>(MARK@|\\w+))[ \\t]*(?P<expr>.*?)[ \\t\\r]*?(\\n+|$))|(?P<SKIP>[\\r\\n]+)|(?P<illegal>.)"
 
 /-- **Tie to the source.** The `_rules` of `_tokenize.py` (names and patterns, in order), `_keywords`,
 `operators` on every string the OP rule can match, the liquid-tag line rules and the expression deriving
@@ -218,8 +220,9 @@ theorem rules_pinned :
     (exprKeywords.all (ExprLex.keywords.contains ·) && ExprLex.keywords.all (exprKeywords.contains ·)) = true ∧
     opTable.all (fun p => (ExprLex.opKind p.1.toList).getD "" == p.2) = true ∧
     liquidRulesDefault = pinnedLiquidDefault ∧ liquidRulesMarker = pinnedLiquidMarker ∧
+    liquidRulesMarkerPunct = pinnedLiquidMarkerPunct ∧
     liquidMarkerExpr = "env.comment_start_string.replace('{', '')" := by
-  refine ⟨rfl, by decide +kernel, by decide +kernel, rfl, rfl, rfl⟩
+  refine ⟨rfl, by decide +kernel, by decide +kernel, rfl, rfl, rfl, rfl⟩
 
 /-- `LiquidTag.parse` hands its line tokenizer the expression token's own text together with that token
 (`tokenizeLiquid commentStart token.start token.value`): the inner offsets of `liquid_tag_offsets` are
